@@ -3,4 +3,4 @@
 cd /verif
 run() { id=$1; out=$(timeout 1500 tools/mutcheck.sh $id 2>&1); rc=$(echo "$out" | grep -o "exit=[0-9]*" | head -1); first=$(echo "$out" | grep "^VIOLATION" | head -2 | sed 's/.*obligation=//' | tr '\n' ';'); echo "$id $rc $first"; }
 export -f run
-ls seeded | xargs -P 6 -I{} bash -c 'run {}' | sort
+ls -d seeded/*/ | xargs -n1 basename | xargs -P 6 -I{} bash -c 'run {}' | sort
